@@ -119,6 +119,9 @@ MUTANTS = [
     (E, "Evolution.__init__", "self._start_integrator(ham, int_small_step)\n            self._ham = ham", "self._start_integrator(ham, int_small_step)", "expect-fail"),
     (E, "Evolution.__init__", 'elif method == "integrate":\n            self._start_integrator', 'elif method == "integrate" and not self._isdop:\n            self._start_integrator', "expect-fail"),
     (E, "Evolution.__init__", "self._method = method\n", 'self._method = "integrate"\n', "expect-fail"),
+    # DESIGN finding 5 (fixed in /repo by a fix: commit): removing the rejection of density operators must fail again
+    (E, "Evolution.__init__", "            elif self._isdop:\n                raise TypeError(\n                    \"You can't use the 'expm' method \"\n                    \"with a density operator initial state.\"\n                )\n",
+     "", "expect-fail"),
 ]
 
 
